@@ -1,18 +1,35 @@
 import RawPanelVerif.Lemmas.MonoOps
+import RawPanelVerif.Lemmas.MonoQuadrant
+import RawPanelVerif.Lemmas.MonoTotal
+import RawPanelVerif.Lemmas.MonoInt64
 import RawPanelVerif.Spec.MonoSpec
 /-!
 # C16 — Drawing never escapes the canvas or its clip region
 
-Property theorems only.  The statement of the property is `Spec.Mono.check` (Spec/MonoSpec.lean): the
+Property theorems only.  The statement of the property is `Spec.Mono.check` / `checkBytes` (Spec/MonoSpec.lean): the
 same executable predicate the check evaluates on the implementation's before/after buffers.
 
-* `C16.step_holds`      for every well-formed canvas and **every** operation (any coordinates, sizes, radii,
-                        bitmaps shorter than declared, any text state / string): size kept, every stored bit
-                        outside `clip ∩ footprint(op)` unchanged (padding bits included), and for pixels,
-                        lines and filled rectangles every bit of `clip ∩ footprint` gets the drawing colour.
-* `C16.reachable_wf`    every canvas reachable from `NewImage` by any operation sequence is well-formed, hence
-* `C16.all_steps_hold`  the clauses hold at every step of every operation sequence on every canvas size.
+* `C16.step_holds`      for every well-formed canvas (row stride ≥ width/8, buffer of **at least** `wib·H` bytes — the slice
+                        `CreateFromBytes` installs may be longer) and **every** operation (any coordinates, sizes, radii,
+                        bitmaps shorter than declared, any text state / string): size kept, every stored bit outside
+                        `clip ∩ footprint(op)` unchanged (padding bits included), and for pixels, lines and filled
+                        rectangles every bit of `clip ∩ footprint` gets the drawing colour.  The footprint of a corner
+                        helper / rounded rectangle is quadrant-exact (`Spec.Mono.fpCircQ`).
+* `C16.step_tail_holds` bytes beyond the `wib·H` row bytes are never modified.
+* `C16.reachable_wf`, `C16.reachable_wf_cmds`  every canvas reachable from `NewImage` by any sequence of drawing
+                        operations, `NewImage` and `CreateFromBytes` (slices shorter / equal / longer) is well-formed, hence
+* `C16.all_steps_hold`, `C16.all_steps_hold_cmds`  the clauses hold at every step of every such sequence.
 * `C16.padding_never_modified`, `C16.outside_canvas_dropped` corollaries in the property's own words.
+* `C16.no_panic`, `C16.no_panic_seq`, `C16.strWidth_no_panic`  in the panic-carrying form of the model
+                        (`Model/MonoChecked.lean`: canvas bytes, font table and bitmap slice are `a[i]?`, negative shift
+                        counts panic) no operation on **any** canvas with **any** arguments ever fails, and it computes
+                        what the `getD` model computes.
+* `C16.work_bound`      the number of loop iterations is at most `(L+1)·(82+72·E·(E+1))` for extents ≤ `E` and `L`
+                        characters, independent of coordinates / canvas / bounding box (no hang; huge positive extents
+                        are the only way to make a call slow).
+* `C16.int64_safe`, `C16.strWidth_int64_safe`  with geometry and arguments below `2^31` every Go `int` value stays inside
+                        `(-2^62, 2^62)` (`Model/MonoInt64.lean`), so the unbounded-`Int` model is exact there.
+* `C16.circ_quadrant`, `C16.fcirc_side`, `C16.drawBitmap_exact`  exact regions of corner helpers; exact effect of `DrawBitmap`.
 * `C16.pinned_row_wrap_counterexample` the defect of the pinned tree (fixed by `fix:` d38b978), for the record.
 -/
 namespace RawPanelVerif.C16
@@ -73,23 +90,42 @@ theorem boxR_iff (g : Geom) (x y x1 y1 : Int) (X Y : Nat) :
   · rintro ⟨hc, h1, h2, h3, h4⟩; exact ⟨hc, by omega, by omega, by omega, by omega⟩
   · rintro ⟨hc, h1, h2, h3, h4⟩; exact ⟨hc, by omega, by omega, by omega, by omega⟩
 
-theorem circR_iff (g : Geom) (x0 y0 r : Int) (X Y : Nat) (h : circR g x0 y0 r X Y) :
-    Spec.Mono.clip (specG g) X Y = true ∧ Spec.Mono.fpCirc x0 y0 r ((X : Int) - g.bx) ((Y : Int) - g.byy) = true := by
-  unfold circR boxR at h
-  obtain ⟨hc, h1, h2, h3, h4⟩ := h
-  refine ⟨(clip_iff g X Y).2 hc, ?_⟩
-  unfold Spec.Mono.fpCirc
-  simp only [Bool.and_eq_true, decide_eq_true_eq]
-  exact ⟨by omega, (inBox_iff _ _ _ _ _ _).2 ⟨by omega, by omega, by omega, by omega⟩⟩
+theorem cbit_eq (corner : Int) : ∀ m ∈ [1, 2, 4, 8], Spec.Mono.cbit corner m = cornerBit corner m := by
+  have hlt : (corner.emod 16).toNat < 16 := by
+    have := Int.emod_lt_of_pos corner (by decide : (0 : Int) < 16)
+    have := Int.emod_nonneg corner (by decide : (16 : Int) ≠ 0)
+    show (corner % 16).toNat < 16
+    omega
+  unfold Spec.Mono.cbit cornerBit
+  generalize (corner.emod 16).toNat = v at hlt
+  have key : ∀ v : Fin 16, ∀ m ∈ [1, 2, 4, 8], (v.val / m % 2 == 1) = ((v.val &&& m) != 0) := by decide
+  exact key ⟨v, hlt⟩
 
-theorem fcircR_iff (g : Geom) (x0 y0 r d : Int) (X Y : Nat) (h : fcircR g x0 y0 r d X Y) :
-    Spec.Mono.clip (specG g) X Y = true ∧ Spec.Mono.fpFCirc x0 y0 r d ((X : Int) - g.bx) ((Y : Int) - g.byy) = true := by
-  unfold fcircR boxR at h
-  obtain ⟨hc, h1, h2, h3, h4⟩ := h
+theorem circQR_iff (g : Geom) (x0 y0 r k : Int) (X Y : Nat) (h : circQR g x0 y0 r k X Y) :
+    Spec.Mono.clip (specG g) X Y = true ∧ Spec.Mono.fpCircQ x0 y0 r k ((X : Int) - g.bx) ((Y : Int) - g.byy) = true := by
+  obtain ⟨⟨hc, h1, h2, h3, h4⟩, hq⟩ := h
   refine ⟨(clip_iff g X Y).2 hc, ?_⟩
-  unfold Spec.Mono.fpFCirc
-  simp only [Bool.and_eq_true, decide_eq_true_eq]
-  exact ⟨by omega, (inBox_iff _ _ _ _ _ _).2 ⟨by omega, by omega, by omega, by omega⟩⟩
+  unfold Spec.Mono.fpCircQ Spec.Mono.fpCirc
+  rw [cbit_eq k 4 (by simp), cbit_eq k 2 (by simp), cbit_eq k 8 (by simp), cbit_eq k 1 (by simp)]
+  simp only [Bool.and_eq_true, Bool.or_eq_true, decide_eq_true_eq]
+  refine ⟨⟨by omega, (inBox_iff _ _ _ _ _ _).2 ⟨by omega, by omega, by omega, by omega⟩⟩, ?_⟩
+  rcases hq with ⟨q, q1, q2⟩ | ⟨q, q1, q2⟩ | ⟨q, q1, q2⟩ | ⟨q, q1, q2⟩
+  · exact Or.inl (Or.inl (Or.inl ⟨⟨q, by omega⟩, by omega⟩))
+  · exact Or.inl (Or.inl (Or.inr ⟨⟨q, by omega⟩, by omega⟩))
+  · exact Or.inl (Or.inr ⟨⟨q, by omega⟩, by omega⟩)
+  · exact Or.inr ⟨⟨q, by omega⟩, by omega⟩
+
+theorem fcircQR_iff (g : Geom) (x0 y0 r k d : Int) (X Y : Nat) (h : fcircQR g x0 y0 r k d X Y) :
+    Spec.Mono.clip (specG g) X Y = true ∧ Spec.Mono.fpFCircQ x0 y0 r k d ((X : Int) - g.bx) ((Y : Int) - g.byy) = true := by
+  obtain ⟨⟨hc, h1, h2, h3, h4⟩, hq⟩ := h
+  refine ⟨(clip_iff g X Y).2 hc, ?_⟩
+  unfold Spec.Mono.fpFCircQ Spec.Mono.fpFCirc
+  rw [cbit_eq k 1 (by simp), cbit_eq k 2 (by simp)]
+  simp only [Bool.and_eq_true, Bool.or_eq_true, decide_eq_true_eq]
+  refine ⟨⟨by omega, (inBox_iff _ _ _ _ _ _).2 ⟨by omega, by omega, by omega, by omega⟩⟩, ?_⟩
+  rcases hq with ⟨q, q1⟩ | ⟨q, q1⟩
+  · exact Or.inl ⟨q, by omega⟩
+  · exact Or.inr ⟨q, by omega⟩
 
 /-- bytes and geometry reads are untouched by the two setters -/
 theorem setter_getPx (c : Canvas) (op : Op) (h : Op.isDraw op = false) (X Y : Nat) :
@@ -129,7 +165,7 @@ theorem applyOp_touch (c : Canvas) (hwf : c.WF) (op : Op) (hd : Op.isDraw op = t
       have e2 : y + h + c.geo.byy = y + c.geo.byy + h := by omega
       rw [e1, e2]; exact hh)
   | rrect x y w h r col =>
-    refine (drawRoundRect_touch c hwf x y w h r col).mono ?_
+    refine (drawRoundRect_touchQ c hwf x y w h r col).mono ?_
     intro X Y hh
     unfold specRegion Spec.Mono.footprint Spec.Mono.footprintRel specOp
     simp only [Bool.or_eq_true]
@@ -157,12 +193,12 @@ theorem applyOp_touch (c : Canvas) (hwf : c.WF) (op : Op) (hd : Op.isDraw op = t
         have e2 : y + r + (h - 2 * r) + c.geo.byy = y + r + c.geo.byy + (h - 2 * r) := by omega
         rw [e1, e2]; exact hh)
       exact ⟨this.1, by simp [this.2]⟩
-    · have := circR_iff _ _ _ _ _ _ hh; exact ⟨this.1, by simp [this.2]⟩
-    · have := circR_iff _ _ _ _ _ _ hh; exact ⟨this.1, by simp [this.2]⟩
-    · have := circR_iff _ _ _ _ _ _ hh; exact ⟨this.1, by simp [this.2]⟩
-    · have := circR_iff _ _ _ _ _ _ hh; exact ⟨this.1, by simp [this.2]⟩
+    · have := circQR_iff _ _ _ _ _ _ _ hh; exact ⟨this.1, by simp [this.2]⟩
+    · have := circQR_iff _ _ _ _ _ _ _ hh; exact ⟨this.1, by simp [this.2]⟩
+    · have := circQR_iff _ _ _ _ _ _ _ hh; exact ⟨this.1, by simp [this.2]⟩
+    · have := circQR_iff _ _ _ _ _ _ _ hh; exact ⟨this.1, by simp [this.2]⟩
   | frrect x y w h r col =>
-    refine (fillRoundRect_touch c hwf x y w h r col).mono ?_
+    refine (fillRoundRect_touchQ c hwf x y w h r col).mono ?_
     intro X Y hh
     unfold specRegion Spec.Mono.footprint Spec.Mono.footprintRel specOp
     simp only [Bool.or_eq_true]
@@ -175,16 +211,16 @@ theorem applyOp_touch (c : Canvas) (hwf : c.WF) (op : Op) (hd : Op.isDraw op = t
         have e2 : y + h + c.geo.byy = y + c.geo.byy + h := by omega
         rw [e1, e2]; exact hh)
       exact ⟨this.1, by simp [this.2]⟩
-    · have := fcircR_iff _ _ _ _ _ _ _ hh; exact ⟨this.1, by simp [this.2]⟩
-    · have := fcircR_iff _ _ _ _ _ _ _ hh; exact ⟨this.1, by simp [this.2]⟩
+    · have := fcircQR_iff _ _ _ _ _ _ _ _ hh; exact ⟨this.1, by simp [this.2]⟩
+    · have := fcircQR_iff _ _ _ _ _ _ _ _ hh; exact ⟨this.1, by simp [this.2]⟩
   | circ x0 y0 r k col =>
-    refine (drawCircleHelper_touch c hwf x0 y0 r k col).mono ?_
+    refine (drawCircleHelper_touchQ c hwf x0 y0 r k col).mono ?_
     intro X Y hh
-    exact circR_iff _ _ _ _ _ _ hh
+    exact circQR_iff _ _ _ _ _ _ _ hh
   | fcirc x0 y0 r k d col =>
-    refine (fillCircleHelper_touch c hwf x0 y0 r k d col).mono ?_
+    refine (fillCircleHelper_touchQ c hwf x0 y0 r k d col).mono ?_
     intro X Y hh
-    exact fcircR_iff _ _ _ _ _ _ _ hh
+    exact fcircQR_iff _ _ _ _ _ _ _ _ hh
   | bitmap x y bits w h col i a =>
     refine (drawBitmap_touch c hwf x y bits w h col i a).mono ?_
     intro X Y hh
@@ -338,6 +374,163 @@ theorem outside_canvas_dropped (c : Canvas) (x y : Int) (col : Bool)
   intro hc
   have := inClip_bounds hc
   omega
+
+/-! ## buffers longer than the canvas rows; (re)constructors as commands -/
+
+/-- **tail**: bytes beyond the `wib·H` row bytes (a longer slice installed by `CreateFromBytes`) are never modified -/
+theorem step_tail_holds (c : Canvas) (hwf : c.WF) (op : Op) :
+    Spec.Mono.tailOk (specG c.geo) c.bytes.size (fun i => (c.bytes.getD i 0).toNat)
+      (fun i => ((applyOp c op).bytes.getD i 0).toNat) = true := by
+  unfold Spec.Mono.tailOk
+  rw [List.all_eq_true]
+  intro k _
+  simp only [beq_iff_eq]
+  have hsame : (applyOp c op).bytes[c.geo.wib * c.geo.H + k]? = c.bytes[c.geo.wib * c.geo.H + k]? := by
+    by_cases hd : Op.isDraw op = true
+    · exact (applyOp_touch c hwf op hd).tail _ (by omega)
+    · rw [(setter_getPx c op (by simpa using hd) 0 0).2]
+  show ((applyOp c op).bytes.getD (c.geo.wib * c.geo.H + k) 0).toNat = (c.bytes.getD (c.geo.wib * c.geo.H + k) 0).toNat
+  rw [Array.getD_eq_getD_getElem?, Array.getD_eq_getD_getElem?, hsame]
+
+theorem copyBytes_size (dst src : Array (BitVec 8)) : (copyBytes dst src).size = dst.size := by
+  unfold copyBytes; simp
+
+/-- `NewImage` / `CreateFromBytes` (any slice: shorter, exact, **longer** than `wib·h`) produce well-formed canvases -/
+theorem applyCmd_wf (c : Canvas) (hwf : c.WF) (cmd : Cmd) : (applyCmd c cmd).WF := by
+  cases cmd with
+  | op o => exact applyOp_wf c hwf o
+  | newImage w h =>
+    have := newCanvas_wf w h
+    unfold applyCmd newImageOn Canvas.WF at *; simpa using this
+  | fromBytes w h b =>
+    unfold applyCmd createFromBytesOn Canvas.WF newCanvas
+    simp only []
+    refine ⟨by omega, ?_⟩
+    split
+    · rw [copyBytes_size]; simp
+    · omega
+
+/-- every canvas reachable by drawing operations, `NewImage` and `CreateFromBytes` in any order is well-formed -/
+theorem reachable_wf_cmds (w h : Nat) (cmds : List Cmd) : (cmds.foldl applyCmd (newCanvas w h)).WF := by
+  have : ∀ (c : Canvas), c.WF → (cmds.foldl applyCmd c).WF := by
+    induction cmds with
+    | nil => intro c h; exact h
+    | cons x xs ih => intro c h; exact ih _ (applyCmd_wf c h x)
+  exact this _ (newCanvas_wf w h)
+
+/-- **C16, all histories incl. buffer replacement**: after any prefix of drawing operations, `NewImage` and
+`CreateFromBytes` calls (slices of any length), the next drawing operation satisfies every clause, the tail clause included. -/
+theorem all_steps_hold_cmds (w h : Nat) (pre : List Cmd) (op : Op) :
+    let c := pre.foldl applyCmd (newCanvas w h)
+    Spec.Mono.check (specG c.geo) (specOp op) c.bytes.size (applyOp c op).bytes.size
+      (getPx c) (getPx (applyOp c op)) = none ∧
+    Spec.Mono.tailOk (specG c.geo) c.bytes.size (fun i => (c.bytes.getD i 0).toNat)
+      (fun i => ((applyOp c op).bytes.getD i 0).toNat) = true :=
+  ⟨step_holds _ (reachable_wf_cmds w h pre) op, step_tail_holds _ (reachable_wf_cmds w h pre) op⟩
+
+/-- non-vacuity: a 9×2 canvas loaded from a 7-byte slice (4 needed) is well-formed, keeps 7 bytes, and drawing on it
+changes byte 0 only -/
+example :
+    let c := applyCmd (newCanvas 0 0) (.fromBytes 9 2 #[0, 0, 0, 0, 0xAA#8, 0xBB#8, 0xCC#8])
+    c.bytes.size = 7 ∧ (applyOp c (.px 0 0 true)).bytes = #[0x80#8, 0, 0, 0, 0xAA#8, 0xBB#8, 0xCC#8] := by decide
+
+/-! ## no panic, no hang -/
+
+/-- **No panic, bounded work — every operation, every canvas, all arguments.**  In the panic-carrying form of the model
+(`Model/MonoChecked.lean`: `imgBytes[index]`, `font[...]`, `bitmap[idx]` are checked accesses, a negative shift count
+panics) no operation ever fails: it returns exactly the canvas of the `getD`-totalised model, after at most `opWork op`
+loop iterations.  No well-formedness is needed: `DrawPixel`'s own index guard protects every buffer. -/
+theorem no_panic (c : Canvas) (n : Nat) (op : Op) :
+    ∃ k, applyOpC (c, n) op = some (applyOp c op, n + k) ∧ k ≤ opWork op := applyOpC_runs c n op
+
+/-- the same for every operation sequence -/
+theorem no_panic_seq (c : Canvas) (n : Nat) (ops : List Op) :
+    ∃ k, runOpsC (c, n) ops = some (ops.foldl applyOp c, n + k) ∧ k ≤ (ops.map opWork).sum := runOpsC_runs ops c n
+
+/-- `StrWidth` never panics either (any font number, mode, string) -/
+theorem strWidth_no_panic (t : TextSt) (s : List Nat) : strWidthC t s = some (strWidth t s) := strWidthC_eq t s
+
+/-- **No hang**: the number of loop iterations depends on the extents (widths, heights, radii, text sizes, string length)
+only — never on coordinates, canvas or bounding box: with every extent ≤ `E` and at most `L` characters it is at most
+`(L+1)·(82 + 72·E·(E+1))`.  Huge *coordinates* are therefore harmless; a huge positive *extent* is not (the loop runs
+that often, each pixel dropped by the clip test) — that is the no-hang domain of the generator. -/
+theorem work_bound (c : Canvas) (n : Nat) (op : Op) (E L : Nat) (he : extentsLe E op) (hl : strLen op ≤ L) :
+    ∃ k, applyOpC (c, n) op = some (applyOp c op, n + k) ∧ k ≤ (L + 1) * (82 + 72 * (E * (E + 1))) := by
+  obtain ⟨k, e, b⟩ := applyOpC_runs c n op
+  exact ⟨k, e, Nat.le_trans b (opWork_le op E L he hl)⟩
+
+/-- non-vacuity: a line starting at x = 2^31 - 3 with 10 pixels on a 16×2 canvas costs 10 iterations and draws nothing;
+the checked accesses are real (a font table that is too short makes the checked width computation fail) -/
+example : applyOpC (newCanvas 16 2, 0) (.hline 2147483645 1 10 true) = some (newCanvas 16 2, 10) ∧
+    startBlanksC { bbH := 8, bbW := 6, first := 32, last := 127, tight := 1, table := #[] } 0 5 0 = none := by
+  constructor <;> decide
+
+/-! ## exact regions of the corner helpers and of bitmaps -/
+
+/-- **Each corner-name bit paints only its quadrant**: `DrawCircleHelper(x0, y0, r, corner)` leaves every stored bit
+unchanged that is not — inside clip and radius box — in a quadrant whose bit is set: bit 1 upper left (`X ≤ x0, Y ≤ y0`),
+2 upper right, 4 lower right, 8 lower left of the centre.  (The Spec's footprint of `circ` / `rrect` is this region, so the
+run also rejects an implementation that draws a corner into the wrong quadrant.) -/
+theorem circ_quadrant (c : Canvas) (hwf : c.WF) (x0 y0 r corner : Int) (col : Bool) (X Y : Nat)
+    (hX : X < c.geo.wib * 8) (hY : Y < c.geo.H) (hout : ¬ circQR c.geo x0 y0 r corner X Y) :
+    getPx (drawCircleHelper c x0 y0 r corner col) X Y = getPx c X Y :=
+  (drawCircleHelper_touchQ c hwf x0 y0 r corner col).same X Y hX hY hout
+
+/-- `FillCircleHelper`: bit 1 fills only columns `X ≥ x0`, bit 2 only columns `X ≤ x0` -/
+theorem fcirc_side (c : Canvas) (hwf : c.WF) (x0 y0 r corner delta : Int) (col : Bool) (X Y : Nat)
+    (hX : X < c.geo.wib * 8) (hY : Y < c.geo.H) (hout : ¬ fcircQR c.geo x0 y0 r corner delta X Y) :
+    getPx (fillCircleHelper c x0 y0 r corner delta col) X Y = getPx c X Y :=
+  (fillCircleHelper_touchQ c hwf x0 y0 r corner delta col).same X Y hX hY hout
+
+/-- non-vacuity: corner name 4 on a 16×16 canvas: (12,12) is in its quadrant region, (4,4) (upper left) is not -/
+example : circQR (newCanvas 16 16).geo 8 8 5 4 12 12 ∧ ¬ circQR (newCanvas 16 16).geo 8 8 5 4 4 4 := by
+  unfold circQR circR boxR clipR inClip xMin yMin wMax hMax cornerBit newCanvas
+  constructor
+  · decide
+  · decide
+
+/-- **`DrawBitmap`, exact**: a stored bit is written iff it lies in the clip, is bit `(i, j)` of the `w × h` bitmap, the
+supplied slice reaches that bit, and (`drawAllPixels` or the bit, xor `inverted`, is set); it then gets
+`color != !bit` (xor the inversion flag).  Every other stored bit keeps its value. -/
+theorem drawBitmap_exact (c : Canvas) (hwf : c.WF) (x y : Int) (bits : Array UInt8) (w h : Int)
+    (col inverted drawAll : Bool) (X Y : Nat) (hX : X < c.geo.wib * 8) (hY : Y < c.geo.H) :
+    (bitmapR c.geo x y bits w h inverted drawAll X Y →
+      getPx (drawBitmap c x y bits w h col inverted drawAll) X Y = bitmapV c.geo x y bits w col inverted X Y) ∧
+    (¬ bitmapR c.geo x y bits w h inverted drawAll X Y →
+      getPx (drawBitmap c x y bits w h col inverted drawAll) X Y = getPx c X Y) :=
+  ⟨(drawBitmap_paintF c hwf x y bits w h col inverted drawAll).inside X Y hX hY,
+   (drawBitmap_paintF c hwf x y bits w h col inverted drawAll).same X Y hX hY⟩
+
+/-! ## Go `int` is int64: no overflow on the 32-bit domain -/
+
+/-- **int64-safe**: in `Model/MonoInt64.lean` every value the Go code computes in an `int` is checked to stay inside
+`(-2^62, 2^62)` (a quarter of int64).  If the canvas size, the row stride and the bounding-box fields are below `2^31` and
+every argument of the operation is below `2^31` in magnitude (text: cursor and sizes below `2^31`, spacing a byte, at most
+`2^22` characters) no check fails and the result is the canvas of the `Int` model: on this domain Go's wrap-around
+arithmetic and the model's unbounded integers agree.  Beyond it nothing is claimed (Go wraps silently; e.g. a cursor near
+`2^63` plus an advance). -/
+theorem int64_safe (c : Canvas) (hg : SmallG c.geo) (op : Op) (ho : SmallOp op) : applyOp64 c op = some (applyOp c op) :=
+  applyOp64_eq c hg op ho
+
+/-- `StrWidth`'s running sum likewise -/
+theorem strWidth_int64_safe (t : TextSt) (s : List Nat) (hH : -2147483648 < t.tsH ∧ t.tsH < 2147483648)
+    (hsp : t.spacing < 256) (hl : s.length ≤ 4194304) : strWidth64 t s = some (strWidth t s) :=
+  strWidth64_eq t s hH hsp hl
+
+/-- canvases of `NewImage(w, h)` with `w, h < 2^31` are in the domain, and drawing never changes the geometry -/
+theorem newCanvas_small (w h : Nat) (hw : w < 2147483648) (hh : h < 2147483648) : SmallG (newCanvas w h).geo := by
+  unfold SmallG newCanvas
+  simp only []
+  omega
+
+/-- non-vacuity: the checks are real (a coordinate of `2^62` fails the very first addition), and an operation at the edge
+of the domain passes them -/
+example : applyOp64 (newCanvas 16 2) (.px 4611686018427387904 0 true) = none ∧
+    applyOp64 (newCanvas 16 2) (.hline 2147483640 1 2147483647 true) ≠ none := by
+  constructor
+  · decide
+  · rw [int64_safe _ (newCanvas_small 16 2 (by omega) (by omega)) _ (by unfold SmallOp; omega)]
+    exact fun h => nomatch h
 
 /-- non-vacuity: a concrete well-formed canvas with a non-trivial bounding box exists and is reachable -/
 example : (applyOp (newCanvas 13 5) (.bbox 2 1 9 3)).WF ∧ getPx (applyOp (applyOp (newCanvas 13 5) (.bbox 2 1 9 3)) (.px 0 0 true)) 2 1 = true := by
